@@ -38,12 +38,16 @@ def gene_strand(g):
     return max(strands, key=strands.count)
 
 
-def export(spec, flavor, translations):
+def export(spec, flavor, translations, ctx=None):
     coll = mkcollection(spec["obj"], chrom_parent(spec["genome"]))
     buf = io.StringIO()
     with warnings.catch_warnings():
         warnings.simplefilter("ignore")
         collection_to_genbank([coll], buf, genbank_type=GenbankFlavor[flavor], update_translations=translations)
+        if ctx is not None:
+            buf2 = io.StringIO()
+            collection_to_genbank([coll], buf2, genbank_type=GenbankFlavor[flavor], update_translations=translations)
+            ctx.true("second_export_same_file[%s]" % flavor, buf2.getvalue() == buf.getvalue(), {"first": buf.getvalue()[:300], "second": buf2.getvalue()[:300]})
     return coll, buf.getvalue()
 
 
@@ -119,7 +123,7 @@ def check_genbank(spec, ctx):
         ctx.nt()
     for flavor in ("PROKARYOTIC", "EUKARYOTIC"):
         for translations in (False, True):
-            coll, text = export(spec, flavor, translations)
+            coll, text = export(spec, flavor, translations, ctx=ctx)
             # (a) independent reader
             recs = list(SeqIO.parse(io.StringIO(text), "genbank"))
             if not ctx.eq("one_record", len(recs), 1):
